@@ -307,7 +307,7 @@ func (c *renderCtx) check(cfg simrt.Config) ([]mismatch, simrt.Stats, string) {
 		add("render.repeat_differs", "repeated calls on one model differ: %s", errs)
 		return mm, st, "differs"
 	}
-	if strings.HasPrefix(errs, "PANIC") {
+	if strings.HasPrefix(errs, "PANIC") && wl.Poison != "panic" {
 		add("render.panic", "%s", errs)
 		return mm, st, "panic"
 	}
@@ -380,7 +380,40 @@ func renderFamily(r *rng, nRandom int, seedBase uint64) []namedSched {
 	return fam
 }
 
+// genWideModel: more than 12 relations in one type and more than 12
+// conditions, spread over several (module, file) groups and unattributed, or
+// 33-100 types: sizes at which sorting algorithms and size thresholds switch.
+func genWideModel(r *rng) *Model {
+	if r.chance(40) {
+		m := genManyTypes(r)
+		attributeModel(r, m)
+		return m
+	}
+	m := &Model{Schema: "1.1"}
+	m.Types = append(m.Types, &Type{Name: "user"})
+	doc := &Type{Name: "doc", Module: "core", File: "core.fga"}
+	n := 13 + r.intn(28)
+	for _, i := range r.perm(n) {
+		rel := &Relation{Name: fmt.Sprintf("r%02d", i), Expr: &Expr{Kind: KThis}, Direct: []Ref{{Type: "user"}}}
+		if i%3 == 0 && i > 0 {
+			rel.Expr = &Expr{Kind: KUnion, Children: []*Expr{{Kind: KThis}, {Kind: KComputed, Rel: "r00"}}}
+		}
+		doc.Relations = append(doc.Relations, rel)
+	}
+	m.Types = append(m.Types, doc)
+	nc := 13 + r.intn(15)
+	for _, i := range r.perm(nc) {
+		m.Conds = append(m.Conds, &Cond{Name: fmt.Sprintf("c%02d", i), Params: []Param{{Name: "x", Type: "string"}}, Expr: "x == \"1\""})
+	}
+	attributeModel(r, m)
+	doc.Module, doc.File = "core", "core.fga"
+	return m
+}
+
 func genRenderModel(r *rng) *Model {
+	if r.chance(3) {
+		return genWideModel(r)
+	}
 	m := genDSLModel(r)
 	// more conditions with several parameters, names that tie
 	if r.chance(60) {
@@ -425,6 +458,23 @@ func genRenderModel(r *rng) *Model {
 // poisonModel turns a model into one the printer rejects late (after part of
 // the output has been produced).
 func poisonModel(r *rng, m *Model) string {
+	if len(m.Conds) >= 1 && r.chance(25) {
+		// a container parameter without element type: the printer panics on it
+		// (C08's subject). The caller recovers; what matters here is that the
+		// panic leaves nothing behind for later calls.
+		names := make([]string, len(m.Conds))
+		for i, c := range m.Conds {
+			names[i] = c.Name
+		}
+		sort.Strings(names)
+		for _, c := range m.Conds {
+			if c.Name == names[len(names)-1] {
+				c.Params = append(c.Params, Param{Name: "zz", Type: []string{"list", "map"}[r.intn(2)]})
+			}
+			c.Module, c.File = "", ""
+		}
+		return "panic"
+	}
 	if len(m.Conds) >= 2 && r.chance(60) {
 		// the last condition in output order is stored under a foreign key
 		names := make([]string, len(m.Conds))
